@@ -7,6 +7,7 @@ CONSTANTS
   MaxVer = 2
   MaxInst = 4
   MaxSubs = 2
+  AllowCtxCancel = FALSE
   CloseSelfOnly = TRUE
 SPECIFICATION Spec
 INVARIANTS EndsForAReason Converges FirstIsFull NoUpdateAfterUnsub EndsAtMostOnce AllEndAfterClose MapComplete LoggerAlternates LoggerPaired LoggerMatchesMap LimitHolds
